@@ -57,6 +57,9 @@ Fixpoint ws_take_all (frames : list (bool * bytes)) : wsres :=
   | (true, p) :: r => match ws_take_all r with WsOk l => WsOk (p :: l) | WsWrongType l => WsWrongType (p :: l) end
   | (false, _) :: _ => WsWrongType []
   end.
+(* a binary request codec expects binary frames: same rules with the frame types flipped *)
+Definition flip_frames (req_binary : bool) (frames : list (bool * bytes)) : list (bool * bytes) :=
+  if req_binary then map (fun f => (negb (fst f), snd f)) frames else frames.
 Definition ws_requests (client_streaming has_body : bool) (frames : list (bool * bytes)) : wsres :=
   if client_streaming then
     (* without a body in the binding the frame only triggers a request built from path/query: its content is not used *)
@@ -103,14 +106,16 @@ Definition chk_c13_records (c : val) : val :=
   | None => verdict_ok
   end.
 
-(* part ws: input ( cs has_body frames responses outcome ) ; impl ( to-target frames-to-client close-code reason-has-code ) *)
+(* part ws: input ( cs has_body frames responses outcome req-binary resp-binary ) ; impl ( to-target frames-to-client close-code reason-has-code ) *)
 Definition as_frames (v : val) : list (bool * bytes) := map (fun f => (as_bool (nthv 0 f), as_S (nthv 1 f))) (as_L v).
 Definition run_ws13 (v : val) : val :=
   let cs := as_bool (nthv 0 v) in
   let hb := as_bool (nthv 1 v) in
   let outcome := as_Z (nthv 4 v) in
-  match ws_requests cs hb (as_frames (nthv 2 v)) with
-  | WsOk l => VL [VL (map (fun p => VS (strip_ws p)) l); VL (map (fun r => VL [VN 1; VS (strip_ws (as_S r))]) (as_L (nthv 3 v)));
+  let req_bin := as_bool (nthv 5 v) in
+  let resp_bin := as_bool (nthv 6 v) in
+  match ws_requests cs hb (flip_frames req_bin (as_frames (nthv 2 v))) with
+  | WsOk l => VL [VL (map (fun p => VS (strip_ws p)) l); VL (map (fun r => VL [vbool (negb resp_bin); VS (strip_ws (as_S r))]) (as_L (nthv 3 v)));
                   VN (ws_close outcome false); vbool (negb (Z.eqb outcome 0))]
   | WsWrongType l => VL [VL (map (fun p => VS (strip_ws p)) l); VL []; VN (ws_close outcome true); vbool true]
   end.
